@@ -7,7 +7,9 @@ MODE = 'trace'
 THEOREMS = ['Tbox.C10.C10_stream', 'Tbox.C10.C10_per_thread_order', 'Tbox.C10.C10_callbacks_serial',
             'Tbox.C10.C10_blocks_wellformed', 'Tbox.C10.C10_buffers_bounded', 'Tbox.C10.C10_cleanup_flushes',
             'Tbox.C10.C10_cleanup_terminates', 'Tbox.C10.C10_lock_discipline', 'Tbox.C10.C10_footprint',
-            'Tbox.C10.C10_stop_unlocked_counterexample', 'Tbox.C10.C10_cleanup_flushes_needs_quiescence', 'Tbox.C10.Spec.parse_sound', 'Tbox.C10.exec_inv']
+            'Tbox.C10.C10_stop_unlocked_counterexample', 'Tbox.C10.C10_cleanup_flushes_needs_quiescence', 'Tbox.C10.C10_blocks_shaped', 'Tbox.C10.C10_observable_accepted',
+            'Tbox.C10.C10_reconstruction_certified', 'Tbox.C10.C10_complete', 'Tbox.C10.blockRule_pack', 'Tbox.C10.realize', 'Tbox.C10.C10_reinit_fresh', 'Tbox.C10.stuck_after_exit',
+            'Tbox.C10.C10_late_append_can_block_forever', 'Tbox.C10.Spec.parse_sound', 'Tbox.C10.exec_inv']
 SOURCES = ['modules/util/async_pipe.cpp']
 # tsan: the property includes data-race freedom; ThreadSanitizer (halt_on_error) turns a race in a case into CRASH tsan:data race.
 # (asan also builds and runs this harness — set C10_FLAVOUR=asan — but then only the stream/termination part is observed.)
@@ -33,7 +35,7 @@ ASSUMPTIONS = ['configuration accepted by initialize(): buff_size >= 1, 1 <= buf
                'one pipe lifecycle initialize()..cleanup(); the sink callback does not call into the pipe']
 RULE = ('cases = pipe lifecycles: config (buffer size 1..4096, (min,max) in {(1,1),(1,2),(2,2),(2,10),(3,5),(1,64)}, interval 1..50 ms) x 1..8 '
         'real producer threads appending tagged length-prefixed records (smaller than / equal to / many times a buffer, zero-size, '
-        'lock+lockless groups) x PRNG-seeded delay schedule at the interposed lock/wait points x slow sink; cleanup at quiescent points; '
+        'lock+lockless groups) x PRNG-seeded delay schedule at the interposed lock/wait points x slow sink; cleanup at quiescent points; several initialize..cleanup lifecycles on one object; `fillhold` probes (live buffer count with the sink held); '
         'non-trivial = at least 2 producers really interleaved, or a timed flush of a partial buffer, or real back-pressure '
         '(a producer waited for a buffer), or an append spanning several buffers; distinct = distinct op text')
 
@@ -43,6 +45,19 @@ def cfg_choices(rng):
     mn, mx = rng.choice([(1, 1), (1, 2), (2, 2), (2, 10), (3, 5), (1, 64), (2, 3)])
     iv = rng.choice([1, 1, 2, 3, 5, 10, 20, 50])
     return size, mn, mx, iv
+
+
+def gen_multi(rng):
+    """2-3 initialize..cleanup lifecycles on ONE AsyncPipe object, different configurations, with `fillhold` probes"""
+    ops = []
+    for _ in range(rng.choice([2, 2, 3])):
+        one = gen_case(rng, budget_bytes=6000, budget_blocks=600)
+        if rng.random() < 0.5:
+            size = int(one[0].split()[1]); mx = int(one[0].split()[3])
+            k = one.index('run') + 1
+            one.insert(k, 'fillhold %d %d' % (rng.randrange(8), min(20000, rng.choice([0, size, (mx + 2) * size, (mx + 3) * size + 7]))))
+        ops += one
+    return ops
 
 
 def gen_case(rng, budget_bytes=20000, budget_blocks=2500):
@@ -97,7 +112,8 @@ def gen(rng, tier):
     # malformed stream: both sides must say bad-op, and a rejected configuration must be refused
     yield ['prod 0 0 1,2', 'run', 'init 0 1 1 1', 'init 8 0 1 1', 'init 8 2 1 1', 'init 8 1 1 0', 'init 8 1', 'init x 1 1 1',
            'cleanup', 'init 8 1 2 5', 'init 8 1 2 5', 'prod 9 0 1', 'prod 0 0 1,,2', 'prod 0 0 1,', 'prod 0 0 g', 'prod 0 0 99999',
-           'prod 0 0 3,z,g4', 'prod 0 0 1', 'perturb 1 2', 'perturb 5 99999 0', 'sleep 9999', 'frob', 'run', 'cleanup', 'cleanup']
+           'prod 0 0 3,z,g4', 'prod 0 0 1', 'perturb 1 2', 'perturb 5 99999 0', 'sleep 9999', 'frob', 'fillhold 0 5', 'fillhold 8 1', 'fillhold 1',
+           'late 4 2 3', 'run', 'cleanup', 'cleanup', 'fillhold 1 1', 'late 0 1 1', 'late 4 2', 'late 5000 1 1']
     # directed: one byte buffers, single buffer (min=max=1): every byte is a block, permanent back-pressure
     yield ['init 1 1 1 1', 'perturb 7 100 200', 'prod 0 0 0,3,z,1', 'prod 1 0 2,2', 'run', 'cleanup']
     # directed: append exactly a buffer, then smaller, then many buffers; timed flush in between
@@ -110,8 +126,18 @@ def gen(rng, tier):
     for k in range(4 if tier == 'quick' else 40):
         yield ['init 64 2 10 %d' % rng.choice([1, 5, 50]), 'perturb %d %d 0' % (rng.randrange(1, 10 ** 9), rng.choice([200, 1000, 2000])),
                'prod 0 0 10,10,10', 'prod 1 0 70,3', 'run', 'cleanup']
+    # directed: buffer count at a quiescent point (sink held): exactly buff_max_num buffers alive when the producer blocks
+    yield ['init 4 1 2 5', 'fillhold 0 40', 'cleanup', 'init 16 2 3 5', 'prod 1 0 3,3', 'run', 'fillhold 1 200', 'fillhold 2 0', 'cleanup',
+           'init 1 1 1 1', 'fillhold 7 3', 'cleanup', 'init 64 3 5 50', 'fillhold 3 700', 'cleanup']
+    # documented only (M-class): an append racing with cleanup() — outcome recorded as a tag, never judged
+    yield ['late 4 2 30', 'init 8 1 2 5', 'prod 0 0 3', 'run', 'cleanup', 'late 64 1 3']
+    if tier != 'quick':
+        for _ in range(6):
+            yield ['late %d %d %d' % (rng.choice([1, 4, 64, 1000]), rng.choice([1, 2, 10]), rng.choice([2, 30, 150]))]
     for _ in range(n):
         yield gen_case(rng)
+    for _ in range(n // 4):
+        yield gen_multi(rng)
 
 
 def nontrivial(ops, model_lines):
@@ -126,7 +152,7 @@ def fingerprint(ops, d):
     if mc:
         key = mc.group(0)               # e.g. 'CRASH tsan:data race' / 'P cleanup timeout' (watchdog)
     else:
-        m = re.search(r'(LOST|DUPLICATE|NOT CONTIGUOUS|OVERLAPPED|EMPTY block|not the start|not a run of the model|no model interleaving|did not return|initialize)', what)
+        m = re.search(r'(LOST|DUPLICATE|NOT CONTIGUOUS|OVERLAPPED|EMPTY block|not the start|not a run of the model|reconstruction|M-class: peak|M-class: \\d+ buffers alive|M-class: producer blocked|did not return|initialize)', what)
         key = m.group(1) if m else what[:40]
     return 'C10-' + hashlib.sha1(key.encode()).hexdigest()[:10]
 
@@ -134,7 +160,8 @@ def fingerprint(ops, d):
 LEVEL_TEXT = ('Lean 4 theorems over an interleaving model of AsyncPipe (producers, the back-end thread, cleanup; one step per atomic region): '
               'inductive invariants proved for every configuration and EVERY interleaving give the stream equation (lossless, no duplication, '
               'contiguous appends, acquisition order, per-thread order), serial callbacks, buffer bounds, sound back-pressure with a variant '
-              'function (no deadlock), cleanup flushes everything and the back end exits (variant function); lockset discipline of every shared '
+              'function (no deadlock), cleanup flushes everything and the back end exits (variant function); the acceptor\'s block rule is exactly the set '
+              'of observables of complete model runs (soundness C10_observable_accepted + completeness C10_complete); lockset discipline of every shared '
               'field. Tied to async_pipe.cpp on every run by a trace acceptor over real multi-threaded runs (TSan build, seeded delay injection).')
 LEVEL_NOTE = ('partial for "free of data races": C++ data-race freedom cannot be exhibited by the Lean model — the model proves the lock discipline '
               '(any two steps of different threads touching a shared field hold a common mutex; footprints honest) and ThreadSanitizer under '
@@ -144,3 +171,33 @@ LEVEL_NOTE = ('partial for "free of data races": C++ data-race freedom cannot be
               'libstdc++/pthread mutex and condition-variable semantics. Appends concurrent with cleanup are outside the statement.')
 TECHNIQUE = 'Lean 4 invariant + variant proofs over all interleavings of an atomic-step model; trace-acceptor correspondence with real threaded runs under TSan'
 DESIGN_REF = 'DESIGN.md §6 C10, §7 row 14'
+
+
+_second = {}
+
+
+def extra_coverage():
+    return {'second_pass_asan': _second} if _second else {}
+
+
+def check(tier, seed, replay):
+    """main pass = TSan build.  thorough: an ASan+UBSan build of the same harness runs first as a second instrument
+    (memory errors under the same perturbation); its verdict is OR-ed into the exit code and recorded in the evidence."""
+    import types
+    g = globals()
+    me = types.SimpleNamespace(**{k: v for k, v in g.items() if not k.startswith('__') and k != 'check'})
+    rc2 = 0
+    if tier == 'thorough' and not replay and FLAVOUR != 'asan':
+        proxy = types.SimpleNamespace(**vars(me))
+        proxy.FLAVOUR = 'asan'
+        proxy.extra_coverage = lambda: {}
+        rc2 = vlib.standard_check(proxy, 'quick', seed + 1000, None)
+        try:
+            import json
+            ev = json.load(open(os.path.join(vlib.VERIF, 'evidence', 'C10.json')))
+            _second.update({'flavour': 'asan', 'exit': rc2, 'evaluations': ev['coverage'].get('evaluations'),
+                            'validated': ev['coverage'].get('traces_validated_against_impl'), 'violations': ev.get('violations')})
+        except Exception as ex:
+            _second.update({'flavour': 'asan', 'exit': rc2, 'note': repr(ex)})
+    rc = vlib.standard_check(me, tier, seed, replay)
+    return 1 if (rc or rc2) else 0
